@@ -250,37 +250,39 @@ def run(ctx) -> None:
         sv = span_var[0].target.id
         test_expr = rets[0]
 
+    # The predicate touches the two spans only through comparisons of (lineno, start, end): it is decided for every
+    # order type of the four endpoints (values 0..3, start <= end on both sides) and same / different line.
+    TERMS = {f"{needle}.start": "ns", f"{needle}.end": "ne", f"{sv}.start": "ss", f"{sv}.end": "se", f"{needle}.lineno": "nl", f"{sv}.lineno": "sl"}
+
     def classify(leaf: ast.AST) -> T.Tuple[str, bool]:
         cs = shapes.compare_shape(leaf)
-        if cs is None:
-            raise AnalysisError(f"C03/R3: overlap leaf not a comparison: {unparse(leaf)}")
-        op, l, r = cs
-        lt, rt = unparse(l), unparse(r)
-        if {lt, rt} == {f"{sv}.lineno", f"{needle}.lineno"} and op in ("==", "!="):
-            return "SAME_LINE", op == "=="
-        # normalise to needle on the left
-        if lt.startswith(sv + "."):
-            lt, rt, op = rt, lt, shapes.mirror(op)
-        if lt == f"{needle}.start" and rt == f"{sv}.end" and op in ("<=", "<"):
-            return "START_LE_END", True
-        if lt == f"{needle}.start" and rt == f"{sv}.end" and op in (">", ">="):
-            return "START_LE_END", False
-        if lt == f"{needle}.end" and rt == f"{sv}.start" and op in (">=", ">"):
-            return "END_GE_START", True
-        if lt == f"{needle}.end" and rt == f"{sv}.start" and op in ("<", "<="):
-            return "END_GE_START", False
-        roots = lambda e_: {x.id for x in ast.walk(e_) if isinstance(x, ast.Name)}
-        if roots(l) | roots(r) <= {sv} or roots(l) | roots(r) <= {needle}:
-            # compares a span with itself: says nothing about the other interval
-            return f"DEGENERATE({unparse(leaf)})", True
-        raise AnalysisError(f"C03/R3: overlap leaf not enumerated: {unparse(leaf)}")
-
+        if cs is None or unparse(cs[1]) not in TERMS or unparse(cs[2]) not in TERMS:
+            raise AnalysisError(f"C03/R3: overlap leaf is not a comparison of span fields: {unparse(leaf)}")
+        return f"{TERMS[unparse(cs[1])]} {cs[0]} {TERMS[unparse(cs[2])]}", True
     ov = shapes.semantic_bf(cond, ho, classify, prog) if cond is not None else shapes.bool_expr_bf(test_expr, classify)
-    spec = BF.var("SAME_LINE") & BF.var("START_LE_END") & BF.var("END_GE_START")
-    ctx.check("R3", ov.equiv(spec), "_has_overlap: same line and both interval conditions",
+    import itertools
+    import operator as _op
+    OPS = {"<": _op.lt, "<=": _op.le, ">": _op.gt, ">=": _op.ge, "==": _op.eq, "!=": _op.ne}
+    wrong = None
+    n_cases = 0
+    for ns, ne, ss, se in itertools.product(range(4), repeat=4):
+        if ns > ne or ss > se:
+            continue
+        for same in (True, False):
+            env = {"ns": ns, "ne": ne, "ss": ss, "se": se, "nl": 7, "sl": 7 if same else 8}
+            f = ov
+            for a in list(ov.atoms):
+                l_, o_, r_ = a.split(" ")
+                f = f.restrict(a, OPS[o_](env[l_], env[r_]))
+            got = f.drop_unused().is_true()
+            want = same and ns <= se and ne >= ss
+            n_cases += 1
+            if got != want and wrong is None:
+                wrong = {"needle": (ns, ne), "span": (ss, se), "same line": same, "predicate": got, "intervals intersect": want}
+    ctx.check("R3", wrong is None, f"_has_overlap: true iff same line and the closed intervals intersect  [{n_cases} order types]",
               "parse._has_overlap: predicate is not 'same line and intervals intersect'",
-              f"extracted {ov.to_dnf()}, required SAME_LINE & START_LE_END & END_GE_START", loc=ho.loc(test_expr),
-              witness=ov.diff_witness(spec))
+              f"extracted {ov.to_dnf()}; differs for {wrong}: e.g. a later match that fully contains an earlier one is not recognised as overlapping, "
+              f"both replacements are applied and text outside the matches is eaten" if wrong else "", loc=ho.loc(test_expr), witness=wrong)
 
     # ---------------------------------------------------------------- R4 (placeholder expansion)
     np_fn = prog.function("v2patterns.normalize_pattern")
